@@ -189,9 +189,23 @@ def _strategy_feat(shapes):
                 "y": draw(gen.arr((N, Dy), -2.5, 2.5)), "give_px": draw(st.booleans()),
                 # objects with a past: conditional built with another noise covariance, queried, then update_Sigma to the
                 # target; p(x) first handed to integrate_log_conditional_y, then updated in place
-                "past": ({"Sigma0": draw(gen.spd(1, Dy, kappa=30.0))} if draw(st.sampled_from([False, False, True])) else None),
+                "past": _past(draw, kind, Dx, Dy, Dk),
                 "upd": _px_update(draw, Rp, Dx) if draw(st.sampled_from([False, False, True])) else None}
     return s()
+
+
+def _past(draw, kind, Dx, Dy, Dk):
+    """None (two thirds), or the parameters the object is built with before it is brought to the target ones."""
+    which = draw(st.sampled_from([None, None, None, None, "Sigma", "kernels", "both"]))
+    if which is None:
+        return None
+    past = {}
+    if which in ("Sigma", "both"):
+        past["Sigma0"] = draw(gen.spd(1, Dy, kappa=30.0))
+    if which in ("kernels", "both"):
+        k0 = draw(gen.feature_params(kind, Dx, Dy, Dk))
+        past["kernels0"] = {k: k0[k] for k in (("mu", "length_scale") if kind == "lrbf" else ("W",))}
+    return past
 
 
 def _px_update(draw, R, Dx):
@@ -355,6 +369,6 @@ SUBS = [
         examples={"quick": 100, "thorough": 500}, shards={"quick": 8, "thorough": 14}, rule="Dx+Dy>=3 or Rq>=2"),
     Sub("feature", _pool_feat, _strategy_feat, _run_feat, lambda c: c["Dk"] >= 2 or c["Dx"] >= 2,
         lambda c: [f"kind={c['kind']}", f"Dx={c['Dx']}", f"px={c['px_mode']}", f"give_px={c['give_px']}", f"Dk={'>16' if c['Dk'] > 16 else '<=5'}",
-                   "cond_past=update_Sigma" if c.get("past") else "cond_fresh", "px_past=update" if c.get("upd") else "px_fresh"],
+                   ("cond_past=" + "+".join(sorted(k.rstrip("0") for k in c["past"]))) if c.get("past") else "cond_fresh", "px_past=update" if c.get("upd") else "px_fresh"],
         examples={"quick": 40, "thorough": 250}, shards={"quick": 9, "thorough": 16}, rule="Dk>=2 or Dx>=2"),
 ]
